@@ -35,7 +35,7 @@ package discovery
 //@   ensures [addressed-to-this-service] isNilIface(result) <==> exists k int :: 0 <= k && k < len(audience) && audience[k] == service.ID
 
 //@ func (*Module).validateRegistration
-//@   prop C16
+//@   prop C16 C19
 //@   safety
 //@   modifies nothing
 //@   requires presentation.Format() == vc.JWTPresentationProofFormat
@@ -48,7 +48,7 @@ package discovery
 //@        && same(arg(call (pe.PresentationDefinition).Match #1, 0), definition.PresentationDefinition)
 
 //@ func (*Module).validateRetraction
-//@   prop C16
+//@   prop C16 C19
 //@   safety
 //@   requires presentation.Format() == vc.JWTPresentationProofFormat
 //@   ensures [carries-no-credentials] isNilIface(result) ==> len(presentation.VerifiableCredential) == 0
@@ -59,7 +59,7 @@ package discovery
 //@        && arg(call (*sqlStore).exists #1, 3) != "" && any(arg(call (*sqlStore).exists #1, 3)) == ret(call (jwt.Token).Get #1).0
 
 //@ func (*Module).verifyRegistration
-//@   prop C16
+//@   prop C16 C19
 //@   safety
 //@   ensures [jwt-presentation-with-id] isNilIface(result) ==> presentation.Format() == vc.JWTPresentationProofFormat && presentation.ID != nil
 //@   ensures [addressed-to-this-service] isNilIface(result) ==> isNilIface(ret(call validateAudience #1))
@@ -147,7 +147,7 @@ package discovery
 // A presentation is listed only by a server of that service, only after verifyRegistration accepted
 // exactly this presentation under that service's definition, and only if it is not listed already.
 //@ func (*Module).Register
-//@   prop C16
+//@   prop C16 C19
 //@   safety
 //@   call (*sqlStore).add #1 requires [only-verified-new-presentations-are-listed]
 //@        old(serviceID in m.serverDefinitions)
@@ -176,12 +176,19 @@ package discovery
 
 // ---- C16: the client replica ----
 
+// the verifier handed to the client is Module.verifyRegistration (module.go: Configure); ASSUMED not to
+// modify memory visible to the updater
+//@ func .verifier
+//@   trusted
+//@   benign
+
 // The client asks for everything after its own last timestamp, starts over when the seed changed
 // (wipeOnSeedChange, before anything is stored), stores new entries under the server's seed and
 // timestamp, and marks an entry validated only after its own verifier accepted exactly that entry.
 //@ func (*clientUpdater).updateService
-//@   prop C16
+//@   prop C16 C19
 //@   safety
+//@   requires u.verifier != nil
 //@   call (client.HTTPClient).Get #1 requires [asks-after-own-timestamp] isNilIface(ret(call (*sqlStore).getTimestamp #1).1)
 //@        && arg(call (*sqlStore).getTimestamp #1, 1) == service.ID && arg(3) == ret(call (*sqlStore).getTimestamp #1).0 && arg(2) == service.Endpoint
 //@   call (*sqlStore).add #1 requires [stored-after-seed-check-under-the-servers-seed-and-timestamp]
@@ -192,7 +199,7 @@ package discovery
 //@   call (*sqlStore).updateValidated #1 requires [validated-only-after-own-verification-of-this-entry]
 //@        isNilIface(ret(call .verifier #1)) && same(arg(call .verifier #1, 0), service) && same(arg(call .verifier #1, 1), arg(call (*sqlStore).add #1, 2))
 //@        && isNilIface(ret(call (*sqlStore).add #1).1) && len(arg(1)) == 1 && same(arg(1)[0], *ret(call (*sqlStore).add #1).0)
-//@   loop 1 invariant true
+//@   loop 1 invariant u.verifier != nil
 
 // ---- C16: what the server hands out and what a search returns ----
 
